@@ -2,7 +2,11 @@
 (correspondence harness: mokapot.digest vs. Lean model `digest` vs. Lean spec enumeration `digestspec`;
 extensions: `min_length = 0` against the all-bounds spec `digestspec0`, general fixed-width patterns
 (several consumed residues, positive/negative look-ahead, negated classes) against `digestp`/`digestspecp`,
-the entry point called by keyword / positionally / with omitted (default) arguments)."""
+the entry point called by keyword / positionally / with omitted (default) arguments; zero-width rules against
+`digestz`/`digestspecz`; third pass: ANY enzyme regex - the match ends are taken from `re.finditer` by the harness and
+handed to `digestm` (model `digestM`) / `digestspecm` (`DigestSpecM`, multiplicities) / `digestspecms` (`DigestSpecMS`,
+positions as a set, when every match is non-empty); negative limits against `digestint`; `matchAt` against
+`regex.match`)."""
 from __future__ import annotations
 
 import itertools
@@ -29,7 +33,12 @@ RULE = (
     "extension: enzyme rules written with look-around only (empty matches; named and random ones, also matching at "
     "position 0 / at the end, the empty pattern) against `digestz`/`digestspecz` with their own exhaustive sweep, "
     "proteins of 400..6000 residues (15000 thorough) against the model and an independent Python restatement of "
-    "the specification, every 16th call repeated after mutating the first result, length limits beyond 2^31 / 2^63"
+    "the specification, every 16th call repeated after mutating the first result, length limits beyond 2^31 / 2^63; "
+    "third extension: ANY enzyme regex (alternations of consuming and zero-width branches, variable-width "
+    "quantifiers, anchors; named and random ones) - the match ends are taken from `re.finditer` by the harness, "
+    "checked to be weakly increasing and <= len(sequence), and the real digest is compared with the model "
+    "`digestm` and the specification with multiplicities `digestspecm` (exhaustive sweep included); negative "
+    "missed_cleavages / min_length / max_length against `digestint`"
 )
 
 # regex -> (cleavage residues, blocking next residues) : the class of enzymes the model covers
@@ -82,6 +91,127 @@ ZERO_RULES = {
     r"(?<=K)(?=.)": dict(lb=[True, False, "K"], la=[True, True, ""]),           # never at the end
     r"": dict(lb=None, la=None),                                                # the empty pattern: every position
 }
+
+
+# any regex (Model/DigestMulti.lean): outside the three modelled pattern classes.  The match ends are taken from
+# `re.finditer` by the harness (CPython `re` is trusted for them; the theorems need them weakly increasing and
+# <= len(seq), which `multi_ends` checks on every case).  regex -> letters for the small alphabet
+ANY_REGEXES = {
+    r"[KR]|(?=D)": "KRD",            # trypsin + Asp-N: `KD` lists the position between them twice (defect D-2)
+    r"(?<=[KR])|(?=D)": "KRD",       # the same positions, each listed once
+    r"[KR](?!P)|(?=D)": "KPD",
+    r"K+": "K",                      # variable width: a run of K is one match
+    r"[KR]{1,2}": "KR",
+    r"K*": "K",                      # empty matches wherever no K starts, also right after a run
+    r"KR?": "KR",
+    r"K|$": "K",                     # anchor: an empty match at the end (`len(seq)` listed twice, or three times)
+    r"^M|K": "KM",                   # anchor + consumption of the initiator methionine
+    r"^|K": "K",                     # empty match at 0: site 0 listed twice
+    r"(?<=K)|R": "KR",
+    r"K(?=A)|R(?!P)": "KRP",
+    r"(K|R)(?!P)": "KRP",            # a group
+    r"(?:KK)+": "K",
+    r"K{2,}": "K",
+    r"M?K": "KM",
+    r"\b": "K",                      # word boundary: both ends of a non-empty sequence
+    r"[KR]|[KR]P": "KRP",
+    r"(?=M)|(?<=K)": "KM",           # matches in front of an N-terminal M
+    r"D|(?=D)": "D",
+}
+
+
+def gen_any_regex(rng):
+    """a random alternation of 1..3 branches: fixed-width patterns, zero-width rules, quantified classes, anchors"""
+    alpha = rng.sample("KRPDMA", 3)
+
+    def klass():
+        r = rng.random()
+        if r < 0.6:
+            return class_regex(False, "".join(rng.sample(alpha, rng.choice([1, 1, 2]))), rng)
+        if r < 0.9:
+            return class_regex(True, rng.choice(alpha))
+        return "."
+
+    def branch():
+        r = rng.random()
+        if r < 0.25:
+            return pattern_regex(gen_pattern(rng), rng)
+        if r < 0.5:
+            return zero_regex(gen_zero(rng), rng)
+        if r < 0.8:
+            q = rng.choice(["+", "*", "?", "{1,2}", "{2}", "{2,}", "+?", "*?"])
+            k = klass()
+            tail = rng.choice(["", "", klass(), "(?!" + klass() + ")", "(?=" + klass() + ")"])
+            return k + q + tail
+        return rng.choice(["^", "$", "^" + klass(), klass() + "$", r"\b", r"\B", ""])
+
+    return "|".join(branch() for _ in range(rng.choice([1, 2, 2, 3]))), "".join(alpha)
+
+
+def is_multi(c):
+    return bool(c.get("multi")) or c["enz"] in ANY_REGEXES
+
+
+def multi_ends(c):
+    """`[m.end() for m in regex.finditer(seq)]` taken from `re` directly (independently of mokapot), with the
+    case's flags; None when the list violates the hypotheses of C17_digestM_mem_iff_spec"""
+    rx = the_regex(c)
+    if isinstance(rx, str):
+        key = ("multi", rx)
+        if key not in _COMPILED:
+            _COMPILED[key] = re.compile(rx)
+        rx = _COMPILED[key]
+    ends = [m.end() for m in rx.finditer(c["seq"])]
+    n = len(c["seq"])
+    if any(e > n or e < 0 for e in ends) or any(a > b for a, b in zip(ends, ends[1:])):
+        return None
+    return ends
+
+
+def multi_set_spec(c):
+    ends = multi_ends(c)
+    return (all(e > 0 for e in ends) and all(a < b for a, b in zip(ends, ends[1:]))
+            and (len(c["seq"]) + c["mc"]) % 2 == 0)
+
+
+def neg_limits(c):
+    return c["mc"] < 0 or c["lo"] < 0 or c["hi"] < 0
+
+
+def py_spec_multi(c):
+    """`DigestSpecM` restated directly: positions a <= b among the listed sites, at most `mc` list entries strictly
+    between (with multiplicity), a = b only for a position listed twice (the empty peptide); clip only when the
+    peptide is reached from the first list entry within the limit; negative limits as Python compares them"""
+    import bisect
+    from collections import Counter
+
+    s = c["seq"]
+    n = len(s)
+    sites = [0] + multi_ends(c) + [n]
+    mc, lo, hi = c["mc"], c["lo"], c["hi"]
+    if mc < 0 or hi < 0:
+        return set()
+    lo = max(lo, 0)
+    cnt = Counter(sites)
+    pos = sorted(cnt)
+    out = set()
+    for i, a in enumerate(pos):
+        if cnt[a] >= 2 and lo == 0:
+            out.add("")
+        for b in pos[i + 1:]:
+            if bisect.bisect_left(sites, b) - bisect.bisect_right(sites, a) > mc:
+                break
+            if not (lo <= b - a <= hi):
+                continue
+            out.add(s[a:b])
+            if c["clip"] and a == 0 and s[0] == "M" and b - 1 >= lo and bisect.bisect_left(sites, b) - 1 <= mc:
+                out.add(s[1:b])
+            if c["semi"]:
+                for k in range(1, b - a):
+                    if b - a - k >= lo:
+                        out.add(s[a + k:b])
+                        out.add(s[a:b - k])
+    return out
 
 
 def zero_regex(z, rng=None):
@@ -295,11 +425,11 @@ def zero_of(c):
 
 
 def is_zero(c):
-    return "zero" in c or ("pat" not in c and c["enz"] in ZERO_RULES)
+    return not is_multi(c) and ("zero" in c or ("pat" not in c and c["enz"] in ZERO_RULES))
 
 
 def is_pattern(c):
-    return not is_zero(c) and ("pat" in c or c["enz"] not in ENZYMES)
+    return not is_multi(c) and not is_zero(c) and ("pat" in c or c["enz"] not in ENZYMES)
 
 
 STRICT_NTERM_CLIP = bool(os.environ.get("C17_STRICT_NTERM_CLIP"))
@@ -317,6 +447,18 @@ def fold_case(letters, c):
 
 
 def wire(op, c):
+    if is_multi(c):
+        ends = multi_ends(c)
+        if op == "digest":
+            # the model; `digestint` takes the limits as (possibly negative) ints
+            return req("digestint" if neg_limits(c) else "digestm", ends, common.Atom("q" + c["seq"]),
+                       c["mc"], c["lo"], c["hi"], c["clip"], c["semi"])
+        # the specification `DigestSpecM` is stated for naturals; negative limits are restated here the way Python
+        # compares them (the caller empties the result when mc < 0 or hi < 0).  When every match is non-empty (ends
+        # strictly increasing and positive) every other case is judged by `DigestSpecMS` instead - the property text
+        # over the *set* of cleavage positions (C17_digestM_nonempty_matches_spec)
+        return req("digestspecms" if multi_set_spec(c) else "digestspecm", ends, common.Atom("q" + c["seq"]), max(c["mc"], 0), max(c["lo"], 0),
+                   max(c["hi"], 0), c["clip"], c["semi"])
     if is_zero(c):
         z = zero_of(c)
         lb = z["lb"] if z["lb"] is not None else [False, False, ""]
@@ -354,6 +496,8 @@ def zero_ends(c):
 
 def internal_sites(c):
     s = c["seq"]
+    if is_multi(c):
+        return sum(1 for e in multi_ends(c) if 0 < e < len(s))
     if is_zero(c):
         return sum(1 for e in zero_ends(c) if 0 < e < len(s))
     if is_pattern(c):
@@ -368,6 +512,8 @@ def internal_sites(c):
 
 def last_residue_cleaves(c):
     s = c["seq"]
+    if is_multi(c):
+        return bool(s) and len(s) in multi_ends(c)
     if is_zero(c):
         return bool(s) and len(s) in zero_ends(c)
     if is_pattern(c):
@@ -383,6 +529,8 @@ def py_spec(c, strict=False):
     then needs one missed cleavage in reserve: DigestSpecZ); with semi every proper prefix / suffix >= lo; the empty
     peptide when lo = 0 and an end of the sequence is listed twice.  Independent oracle for the long proteins, and
     cross-checked against the Lean spec enumerations on the short ones."""
+    if is_multi(c):
+        return py_spec_multi(c)
     s = c["seq"]
     n = len(s)
     if is_zero(c):
@@ -456,6 +604,8 @@ def eval_cases(chk, cases, detail=True, oracle="lean"):
         i0, tally_i = at[k]
         model = parse_peps(resp[i0])
         spec = parse_peps(resp[i0 + 1]) if oracle == "lean" else py_spec(c)
+        if is_multi(c) and (c["mc"] < 0 or c["hi"] < 0):
+            spec = set()   # `range(1, mc + 2)` is empty / `len(peptide) > max_length` always holds
         again = None
         try:
             out = impl_digest(c)
@@ -483,9 +633,27 @@ def eval_cases(chk, cases, detail=True, oracle="lean"):
             zero = is_zero(c)
             chk.count("len", n if n <= 10 else ("11-30" if n <= 30 else ("31-100" if n <= 100 else (
                 "101-399" if n < 400 else ("400-1999" if n < 2000 else ">=2000")))))
-            chk.count("enzyme", c["enz"] if (c["enz"] in ENZYMES or c["enz"] in PATTERNS or c["enz"] in ZERO_RULES)
-                      else ("(random zero-width rule)" if zero else "(random pattern)"))
-            chk.count("enzyme_written_as", "look-around only (empty matches)" if (c.get("zw") or zero) else "consuming")
+            multi = is_multi(c)
+            chk.count("enzyme", ("any-regex family: " if multi else "") + c["enz"]
+                      if (c["enz"] in ENZYMES or c["enz"] in PATTERNS or c["enz"] in ZERO_RULES
+                          or c["enz"] in ANY_REGEXES)
+                      else ("(random any-regex)" if multi else
+                            ("(random zero-width rule)" if zero else "(random pattern)")))
+            chk.count("enzyme_model", "digestM (match ends from re)" if multi else (
+                "digestZ" if zero else ("digestP" if pat else "digest")))
+            if multi:
+                me = multi_ends(c)
+                chk.count("anyregex_site_listed_twice_interior",
+                          any(a == b and 0 < a < n for a, b in zip(me, me[1:])))
+                chk.count("anyregex_site_0_listed_twice", 0 in me)
+                chk.count("anyregex_end_listed_3_times", me[-2:] == [n, n])
+                chk.count("anyregex_negative_limit", neg_limits(c))
+                chk.count("anyregex_spec_oracle", "py_spec_multi" if oracle != "lean" else (
+                    "DigestSpecMS (positions as a set)" if multi_set_spec(c) else "DigestSpecM (with multiplicity)"))
+                chk.count("anyregex_match_widths", "empty only" if all(m.end() == m.start() for m in re.finditer(
+                    c["enz"], c["seq"], re.IGNORECASE if c.get("icase") else 0)) else "some non-empty")
+            chk.count("enzyme_written_as", "any regex" if multi else (
+                "look-around only (empty matches)" if (c.get("zw") or zero) else "consuming"))
             chk.count("compiled_regex", bool(c.get("compiled")))
             chk.count("compiled_with_IGNORECASE", bool(c.get("icase")))
             chk.count("compiled_with_VERBOSE", bool(c.get("verbose")))
@@ -543,8 +711,21 @@ def eval_cases(chk, cases, detail=True, oracle="lean"):
             if py_spec(c) != spec:
                 # the Python restatement used for the long proteins must agree with the proved enumerations
                 info(chk, "harness_py_spec_disagreements", dict(case=c, py=sorted(py_spec(c)), lean=sorted(spec)))
+        if (detail and c["clip"] and not c["semi"] and c["seq"].startswith("M") and 0 <= c["lo"] <= c["hi"] < len(c["seq"])
+                and not c.get("call") and impl == spec):
+            # observation O-2 (GAPS-C17.md, third pass): the N-terminal peptide of M + max_length residues fails the
+            # length filter before the clip branch, so its clipped form (exactly max_length residues) is not returned
+            # (C17_digestM_clipped_shorter_than_max).  Informational: the property text asks for the clipped form of
+            # *qualifying* N-terminal peptides only.
+            chk.count("clip_maxlen_probe", True)
+            wider = set(impl_digest(dict(c, hi=c["hi"] + 1, again=False)))
+            lost = [q for q in wider - impl if len(q) == c["hi"] and c["seq"].startswith("M" + q)]
+            if lost:
+                info(chk, "clipped_form_of_exactly_max_length_not_produced",
+                     dict(case=dict(c, seq=c["seq"][:80]), not_returned=lost[:3]))
         if impl != spec:
-            sig = ("digest-vs-spec" + ("-zero" if is_zero(c) else ("-pattern" if is_pattern(c) else ""))
+            sig = ("digest-vs-spec" + ("-anyregex" if is_multi(c) else (
+                "-zero" if is_zero(c) else ("-pattern" if is_pattern(c) else "")))
                    + ("-minlen0" if c["lo"] < 1 else ""))
             clause = first_clause(c, impl, spec) + (" (second of two calls)" if again is not None else "")
             if is_zero(c) and c["clip"] and not STRICT_NTERM_CLIP and impl == (
@@ -556,7 +737,8 @@ def eval_cases(chk, cases, detail=True, oracle="lean"):
             chk.spec_violation(
                 sig, dict(case=c, impl=sorted(impl)[:200], expected=sorted(spec)[:200], clause=clause))
         elif impl != model:
-            chk.corr_break("digestz" if is_zero(c) else ("digestp" if is_pattern(c) else "digest"),
+            chk.corr_break(("digestint" if neg_limits(c) else "digestm") if is_multi(c) else (
+                "digestz" if is_zero(c) else ("digestp" if is_pattern(c) else "digest")),
                            dict(case=c, impl=sorted(impl)[:200], model=sorted(model)[:200]))
     return results
 
@@ -648,6 +830,41 @@ def sites_cases(chk, rng, n):
             info(chk, "private_helper_sites_disagreements", dict(enz=enz, seq=seq, impl=impl, model=model))
         if [0] + py_zero_ends(z, seq) + [len(seq)] != model:
             info(chk, "harness_tally_matcher_disagreements", dict(enz=enz, seq=seq, model=model))
+    # any regex: `_cleavage_sites` against `sitesm` (the match ends come from `re` on both sides: this compares the
+    # wrapping `[0] + ends + [len]` only) - informational like the other private-helper comparisons
+    mcases = [gen_multi_case(rng, 20) for _ in range(n // 4)]
+    mresp = common.driver_batch([req("sitesm", multi_ends(c), common.Atom("q" + c["seq"])) for c in mcases])
+    for c, r in zip(mcases, mresp):
+        model = [int(t) for t in r.strip()[1:-1].split()]
+        impl = list(fasta._cleavage_sites(c["seq"], the_regex(c)))
+        chk.count("sites_cases", "any regex")
+        if impl != model:
+            info(chk, "private_helper_sites_disagreements", dict(enz=c["enz"], seq=c["seq"], impl=impl, model=model))
+    # the spec function `matchAt` (building block of `LeftmostMatches`, C17_finditer_leftmost / _unique) against
+    # CPython: `regex.match(seq, s)` at every position - a disagreement means the Lean reading of the pattern
+    # language is wrong (framework error, raised at the end of the run)
+    pcases = []
+    for _ in range(n // 2):
+        if rng.random() < 0.4:
+            enz = rng.choice(list(PATTERNS))
+            pat = PATTERNS[enz]
+        else:
+            pat = gen_pattern(rng)
+            enz = pattern_regex(pat, rng)
+        alpha = pattern_alphabet(pat)
+        pcases.append((enz, pat, "".join(rng.choice(alpha) for _ in range(rng.randint(0, 12)))))
+    plines = []
+    for enz, pat, seq in pcases:
+        la = pat["la"] if pat["la"] is not None else [False, False, ""]
+        plines.append(req("matchatp", [cls_atom(n_, l) for n_, l in pat["classes"]], bool(la[0]),
+                          cls_atom(la[1], la[2]), common.Atom("q" + seq)))
+    for (enz, pat, seq), r in zip(pcases, common.driver_batch(plines)):
+        model = [t == "T" for t in r.strip()[1:-1].split()]
+        rx = re.compile(enz)
+        real = [rx.match(seq, s_) is not None for s_ in range(len(seq) + 1)]
+        chk.count("sites_cases", "matchAt vs re.match")
+        if real != model:
+            info(chk, "spec_function_matchAt_vs_re_disagreements", dict(enz=enz, seq=seq, re=real, lean=model))
     for _ in range(n):
         if rng.random() < 0.5:
             enz = rng.choice(list(ENZYMES))
@@ -809,12 +1026,73 @@ def gen_case(rng, nmax=160, zero_share=0.12):
     return c
 
 
+def gen_multi_case(rng, nmax=40):
+    """any-regex family (Model/DigestMulti.lean): named and random regexes outside the modelled classes, and now and
+    then a regex of a modelled class (the generic model must agree there too)"""
+    r = rng.random()
+    if r < 0.5:
+        enz = rng.choice(list(ANY_REGEXES))
+        letters = ANY_REGEXES[enz]
+    elif r < 0.9:
+        enz, letters = gen_any_regex(rng)
+    else:
+        enz = rng.choice(list(ENZYMES) + list(PATTERNS) + list(ZERO_RULES))
+        letters = "".join(small_alphabet(enz))
+    alpha = list(dict.fromkeys(letters[:3] + "MA"))
+    k = rng.random()
+    if k < 0.6:
+        n = rng.choice([0, 1, 2, 3, 3, 4, 4, 5, 5, 6, 6, 7, 8, 9, 10])
+        seq = "".join(rng.choice(alpha) for _ in range(n))
+    else:
+        n = rng.randint(11, nmax)
+        w = [(6 if a in letters else (2 if a == "M" else 1)) for a in AA20]
+        seq = "".join(rng.choices(AA20, weights=w, k=n))
+    if seq and rng.random() < 0.35:
+        seq = "M" + seq[1:]
+    n = len(seq)
+    mc = rng.choice([0, 0, 1, 1, 2, 2, 3, 3, 4, 6])
+    r = rng.random()
+    if r < 0.2:
+        lo, hi = 0, rng.randint(0, max(1, n))
+    else:
+        lo = rng.choice([1, 1, 1, 1, 2, 2, 3, 4, 6])
+        hi = rng.choice([lo, lo + 1, lo + 2, lo + 4, max(lo, n), n + 3, 50] + ([lo - 1] if rng.random() < 0.2 else []))
+    c = dict(enz=enz, multi=True, compiled=rng.random() < 0.3, seq=seq, mc=mc, lo=lo, hi=max(hi, 0),
+             clip=rng.random() < 0.5, semi=rng.random() < 0.5)
+    if n >= 4 and rng.random() < 0.15:
+        # semi AND clip on an M-initial protein whose N-terminal peptide is at least min_length + 2 long (a prefix of
+        # the clipped form must not leak into the result: seeded change C17e)
+        c["seq"] = "M" + "".join(rng.choice("AGLV") for _ in range(rng.randint(2, 5))) + seq[1:]
+        c["clip"] = c["semi"] = True
+        c["lo"] = rng.choice([0, 1, 1, 2])
+        c["hi"] = max(c["hi"], c["lo"] + 4)
+    if rng.random() < 0.06:
+        # Python ints: a negative limit (`digestint`)
+        which = rng.choice(["mc", "lo", "lo", "hi"])
+        c[which] = -rng.choice([1, 1, 2, 5])
+    if rng.random() < 0.06:
+        c["icase"] = True
+        c["compiled"] = True
+        c["seq"] = "".join(ch.lower() if rng.random() < 0.4 else ch for ch in c["seq"])
+    if rng.random() < 1 / 16:
+        c["again"] = True
+    if rng.random() < 0.1:
+        c["call"] = "pos"
+    if multi_ends(c) is None:
+        raise RuntimeError(f"re.finditer reported match ends that are not weakly increasing / exceed len(seq): {c}")
+    return c
+
+
 def gen_long_case(rng, nmin, nmax):
     """a protein of nmin..nmax residues (real proteomes: median ~ 400, titin 35 000): class enzymes, a few general
     patterns and zero-width rules; realistic length limits so that the output stays small"""
     r = rng.random()
     pat = zero = None
-    if r < 0.6:
+    multi = False
+    if r < 0.12:
+        enz = rng.choice([r"[KR]|(?=D)", r"K+", r"[KR]{1,2}", r"K|$", r"^M|K", r"[KR](?!P)|(?=D)"])
+        multi = True
+    elif r < 0.6:
         enz = rng.choice(list(ENZYMES))
     elif r < 0.8:
         enz = rng.choice([r"\w(?=D)", r"[KR](?=[^P])", "KK", "[KR][^P]", "[KR]K(?=[^P])"])
@@ -823,7 +1101,9 @@ def gen_long_case(rng, nmin, nmax):
         enz = rng.choice([r"(?<=[KR])(?!P)", r"(?<=K)", r"(?=D)", r"(?=K)", r"(?<!P)(?=[DM])"])
         zero = ZERO_RULES[enz]
     n = int(round(nmin * (nmax / nmin) ** rng.random()))   # log-uniform
-    if pat is None and zero is None:
+    if multi:
+        cls, nn = ANY_REGEXES[enz], ""
+    elif pat is None and zero is None:
         cls, nn = ENZYMES[enz]
     elif pat is not None:
         cls = "".join(l for n_, l in pat["classes"] if not n_) or "K"
@@ -853,6 +1133,8 @@ def gen_long_case(rng, nmin, nmax):
         c["call"] = "pos"
     if rng.random() < 0.15:
         c["again"] = True
+    if multi:
+        c["multi"] = True
     return c
 
 
@@ -966,10 +1248,10 @@ def mono_sweep(chk, rng, n):
         return cache[k]
 
     for _ in range(n):
-        c = gen_case(rng, 40)
+        c = gen_multi_case(rng, 30) if rng.random() < 0.2 else gen_case(rng, 40)
         c.pop("call", None)   # the relaxed variants change single arguments: plain keyword calls
         c.pop("omit", None)
-        chk.count("direct_clause_family", "pattern" if is_pattern(c) else "class")
+        chk.count("direct_clause_family", "any regex" if is_multi(c) else ("pattern" if is_pattern(c) else "class"))
         direct_clauses(chk, c, impl_of)
         cache.clear()
 
@@ -1036,7 +1318,7 @@ def minimise(chk):
 def search(chk):
     """failing-input search used when a proof or the correspondence is broken"""
     rng = chk.rng
-    cases = [gen_case(rng, 60) for _ in range(20000)]
+    cases = [gen_case(rng, 60) for _ in range(20000)] + [gen_multi_case(rng) for _ in range(6000)]
     for i in range(0, len(cases), 5000):
         eval_cases(chk, cases[i:i + 5000], detail=False)
         if chk.spec_violations:
@@ -1046,7 +1328,8 @@ def search(chk):
                          ("KK", tuple("KMA"), range(0, 7), "full"), (r"\w(?=D)", tuple("DMA"), range(0, 6), "full"),
                          ("[KR][^P]", tuple("KPMA"), range(0, 6), "full"),
                          (r"(?!P)", tuple("PMA"), range(0, 7), "full"), (r"(?<=K)", tuple("KMA"), range(0, 6), "full"),
-                         (r"(?=D)", tuple("DMA"), range(0, 6), "full"), (r"", tuple("MA"), range(0, 7), "full")],
+                         (r"(?=D)", tuple("DMA"), range(0, 6), "full"), (r"", tuple("MA"), range(0, 7), "full"),
+                         (r"[KR]|(?=D)", tuple("KDMA"), range(0, 6), "full"), (r"K*", tuple("KMA"), range(0, 6), "full")],
                    workers=4)
     if not chk.spec_violations:
         long_cases(chk, rng, 150, 400, 20000)
@@ -1083,6 +1366,7 @@ def main(chk, args):
     cases = [dict(c) for c in corpus_cases()]
     cases += [gen_case(rng, zero_share=0) for _ in range(12000 if quick else 120000)]
     cases += [gen_case(rng, zero_share=1) for _ in range(1500 if quick else 15000)]
+    cases += [gen_multi_case(rng) for _ in range(2500 if quick else 25000)]
     for i in range(0, len(cases), 10000):
         eval_cases(chk, cases[i:i + 10000])
     lap("random")
@@ -1099,7 +1383,9 @@ def main(chk, args):
                          ("KK", tuple("KMA"), range(0, 6), "full"),
                          (r"\w(?=D)", tuple("DMA"), range(0, 5), "full"),
                          (r"(?!P)", tuple("PMA"), range(0, 5), "full"),
-                         (r"(?<=K)(?=.)", tuple("KMA"), range(0, 5), "full")], workers=min(4, n_workers()))
+                         (r"(?<=K)(?=.)", tuple("KMA"), range(0, 5), "full"),
+                         (r"[KR]|(?=D)", tuple("KDMA"), range(0, 5), "full"),
+                         (r"K*", tuple("KMA"), range(0, 5), "full")], workers=min(4, n_workers()))
     else:
         exhaustive(chk, [("[KR](?!P)", tuple("KPMA"), range(0, 7), "full"),
                          ("K", tuple("KMA"), range(0, 8), "full"),
@@ -1118,17 +1404,26 @@ def main(chk, args):
                          (r"(?=D)", tuple("DMA"), range(0, 8), "full"),
                          (r"(?<!P)(?=[DM])", tuple("PDMA"), range(0, 6), "full"),
                          (r"", tuple("MA"), range(0, 9), "full"),
-                         (r"(?<=[^P])(?=[KM])", tuple("KPM"), range(7, 11), "sampled")], workers=n_workers())
+                         (r"(?<=[^P])(?=[KM])", tuple("KPM"), range(7, 11), "sampled"),
+                         (r"[KR]|(?=D)", tuple("KDMA"), range(0, 7), "full"),
+                         (r"K*", tuple("KMA"), range(0, 7), "full"),
+                         (r"K|$", tuple("KMA"), range(0, 7), "full"),
+                         (r"^M|K", tuple("KMA"), range(0, 7), "full"),
+                         (r"[KR]{1,2}", tuple("KRM"), range(0, 7), "full"),
+                         (r"(?=M)|(?<=K)", tuple("KM"), range(7, 11), "sampled")], workers=n_workers())
     lap("exhaustive")
     if "harness_py_spec_disagreements" in chk.extra:
         # the Python restatement of the specification (oracle of the long proteins) disagrees with the proved Lean
         # enumeration: the harness itself is wrong - a framework error, never a verdict
         raise RuntimeError("py_spec disagrees with the Lean specification: "
                            + json.dumps(chk.extra["harness_py_spec_disagreements"]["first"])[:1500])
+    if "spec_function_matchAt_vs_re_disagreements" in chk.extra:
+        raise RuntimeError("Lean `matchAt` disagrees with re.match: "
+                           + json.dumps(chk.extra["spec_function_matchAt_vs_re_disagreements"]["first"])[:1500])
     minimise(chk)
     lc = None
     if chk.tier == "thorough":
-        parts = [common.leanchecker(m) for m in ("C17", "C17Ext", "C17Zero")]   # every property module of C17
+        parts = [common.leanchecker(m) for m in ("C17", "C17Ext", "C17Zero", "C17Multi", "C17Src")]   # every property module of C17
         lc = (all(ok for ok, _ in parts), "\n".join(log for _, log in parts)[-2000:])
     chk.assumptions += [
         "the enzyme is a fixed-width pattern: one or more residue classes ([..], [^..], ., X) followed by an "
@@ -1137,8 +1432,14 @@ def main(chk, args):
         "width 1 with a negative look-ahead, `matchEndsP` in general; characterised by C17_finditer_leftmost / "
         "C17_finditer_unique); or a zero-width rule: a one-residue look-behind and/or look-ahead of either polarity "
         "(or nothing: the empty pattern), for which re.finditer is assumed to report every position 0..len(sequence) "
-        "where the assertions hold (model `matchEndsZ`, C17_isEndZ_iff); variable-width patterns and alternations "
-        "are outside the model",
+        "where the assertions hold (model `matchEndsZ`, C17_isEndZ_iff)",
+        "any other enzyme regex (alternations, variable-width quantifiers, anchors, groups): the match ends are taken "
+        "from CPython `re.finditer` (by the harness, not through mokapot) and are a parameter of the model `digestM`; "
+        "the theorems assume only that they are weakly increasing and <= len(sequence) (C17_digestM_mem_iff_spec; "
+        "checked on every generated case, a violation aborts the run); which positions a given regex matches is not "
+        "modelled for these",
+        "negative missed_cleavages / max_length give the empty set and a negative min_length acts like 0 "
+        "(`digestInt`, a reading of the four comparisons of `_cleave`; tied by differential execution only)",
         "zero-width rules: the verdict specification is DigestSpecZ = the code as it is (C17_digestZ_mem_iff_spec); "
         "it equals the property text (DigestSpecZI) unless the rule matches at position 0 AND clipping is on "
         "(C17_digestZ_spec_intended); real results that differ from the property text there are counted in "
